@@ -140,3 +140,94 @@ HEADER_TAGS = {
     "Relocatable":        dict(num=10, ty="RelocatableHeaderTag", fixed=24, var=None,
                                fields=[("min_addr", 8, 4), ("max_addr", 12, 4), ("align", 16, 4), ("preference", 20, 4)]),
 }
+
+# ---------------------------------------------------------------------------------------------
+# VBE 3.0  VbeInfoBlock (512 bytes) and ModeInfoBlock (256 bytes): (field, offset, width)
+VBE_INFO_BLOCK = dict(size=512, fields=[
+    ("VbeSignature", 0, 4), ("VbeVersion", 4, 2), ("OemStringPtr", 6, 4), ("Capabilities", 10, 4), ("VideoModePtr", 14, 4),
+    ("TotalMemory", 18, 2), ("OemSoftwareRev", 20, 2), ("OemVendorNamePtr", 22, 4), ("OemProductNamePtr", 26, 4),
+    ("OemProductRevPtr", 30, 4), ("Reserved", 34, 222), ("OemData", 256, 256)])
+VBE_MODE_INFO_BLOCK = dict(size=256, fields=[
+    ("ModeAttributes", 0, 2), ("WinAAttributes", 2, 1), ("WinBAttributes", 3, 1), ("WinGranularity", 4, 2), ("WinSize", 6, 2),
+    ("WinASegment", 8, 2), ("WinBSegment", 10, 2), ("WinFuncPtr", 12, 4), ("BytesPerScanLine", 16, 2),
+    ("XResolution+YResolution", 18, 4), ("XCharSize+YCharSize", 22, 2), ("NumberOfPlanes", 24, 1), ("BitsPerPixel", 25, 1),
+    ("NumberOfBanks", 26, 1), ("MemoryModel", 27, 1), ("BankSize", 28, 1), ("NumberOfImagePages", 29, 1), ("Reserved", 30, 1),
+    ("RedMaskSize+RedFieldPosition", 31, 2), ("GreenMaskSize+GreenFieldPosition", 33, 2), ("BlueMaskSize+BlueFieldPosition", 35, 2),
+    ("RsvdMaskSize+RsvdFieldPosition", 37, 2), ("DirectColorModeInfo", 39, 1), ("PhysBasePtr", 40, 4), ("OffScreenMemOffset", 44, 4),
+    ("OffScreenMemSize", 48, 2), ("Reserved2", 50, 206)])
+# crate field name -> VBE field (API table from the field documentation of VBEControlInfo / VBEModeInfo)
+VBE_CONTROL_FIELDS = {"signature": "VbeSignature", "version": "VbeVersion", "oem_string_ptr": "OemStringPtr", "capabilities": "Capabilities",
+                      "mode_list_ptr": "VideoModePtr", "total_memory": "TotalMemory", "oem_software_revision": "OemSoftwareRev",
+                      "oem_vendor_name_ptr": "OemVendorNamePtr", "oem_product_name_ptr": "OemProductNamePtr",
+                      "oem_product_revision_ptr": "OemProductRevPtr", "reserved": "Reserved", "oem_data": "OemData"}
+VBE_MODE_FIELDS = {"mode_attributes": "ModeAttributes", "window_a_attributes": "WinAAttributes", "window_b_attributes": "WinBAttributes",
+                   "window_granularity": "WinGranularity", "window_size": "WinSize", "window_a_segment": "WinASegment",
+                   "window_b_segment": "WinBSegment", "window_function_ptr": "WinFuncPtr", "pitch": "BytesPerScanLine",
+                   "resolution": "XResolution+YResolution", "character_size": "XCharSize+YCharSize", "number_of_planes": "NumberOfPlanes",
+                   "bpp": "BitsPerPixel", "number_of_banks": "NumberOfBanks", "memory_model": "MemoryModel", "bank_size": "BankSize",
+                   "number_of_image_pages": "NumberOfImagePages", "reserved0": "Reserved", "red_field": "RedMaskSize+RedFieldPosition",
+                   "green_field": "GreenMaskSize+GreenFieldPosition", "blue_field": "BlueMaskSize+BlueFieldPosition",
+                   "reserved_field": "RsvdMaskSize+RsvdFieldPosition", "direct_color_attributes": "DirectColorModeInfo",
+                   "framebuffer_base_ptr": "PhysBasePtr", "offscreen_memory_offset": "OffScreenMemOffset",
+                   "offscreen_memory_size": "OffScreenMemSize", "reserved1": "Reserved2"}
+
+# ---------------------------------------------------------------------------------------------
+# API tables: public accessor -> specified field of the kind (names as in MBI_TAGS / HEADER_TAGS `fields`,
+# "hdr.type" / "hdr.size" / "hdr.flags" for the common header).  Accessors that are not plain field reads are
+# listed in COMPOUND_ACCESSORS with the property/premise that decides them.
+MBI_ACCESSORS = {
+    "ApmTag": {"version": "version", "cseg": "cseg", "offset": "offset", "cset_16": "cseg_16", "dseg": "dseg", "flags": "flags",
+               "cseg_len": "cseg_len", "cseg_16_len": "cseg_16_len", "dseg_len": "dseg_len"},
+    "BootLoaderNameTag": {"size": "hdr.size"},
+    "BootdevTag": {"biosdev": "biosdev", "slice": "slice", "part": "part"},
+    "EFIImageHandle32Tag": {"image_handle": "pointer"}, "EFIImageHandle64Tag": {"image_handle": "pointer"},
+    "EFISdt32Tag": {"sdt_address": "pointer"}, "EFISdt64Tag": {"sdt_address": "pointer"},
+    "ElfSectionsTag": {"number_of_sections": "num", "entry_size": "entsize", "shndx": "shndx"},
+    "FramebufferTag": {"address": "framebuffer_addr", "pitch": "framebuffer_pitch", "width": "framebuffer_width",
+                       "height": "framebuffer_height", "bpp": "framebuffer_bpp"},
+    "ImageLoadPhysAddrTag": {"load_base_addr": "load_base_addr"},
+    "BasicMemoryInfoTag": {"memory_lower": "mem_lower", "memory_upper": "mem_upper"},
+    "MemoryMapTag": {"entry_size": "entry_size", "entry_version": "entry_version"},
+    "ModuleTag": {"start_address": "mod_start", "end_address": "mod_end"},
+    "RsdpV1Tag": {"revision": "revision", "rsdt_address": "rsdt_address"},
+    "RsdpV2Tag": {"revision": "revision", "xsdt_address": "xsdt_address", "ext_checksum": "extended_checksum"},
+    "SmbiosTag": {"major": "major", "minor": "minor"},
+    "VBEInfoTag": {"mode": "vbe_mode", "interface_segment": "vbe_interface_seg", "interface_offset": "vbe_interface_off",
+                   "interface_length": "vbe_interface_len", "control_info": "vbe_control_info", "mode_info": "vbe_mode_info"},
+}
+MMAP_ENTRY_ACCESSORS = {"start_address": "addr", "size": "len", "typ": "type"}
+# (type, accessor) -> where it is decided
+COMPOUND_ACCESSORS = {
+    ("BootLoaderNameTag", "name"): "C17", ("BootLoaderNameTag", "typ"): "G6 decoder TagType::from(hdr.type)",
+    ("CommandLineTag", "cmdline"): "C17", ("ModuleTag", "cmdline"): "C17", ("ModuleTag", "module_size"): "G6 mod_end - mod_start",
+    ("ElfSectionsTag", "sections"): "C19", ("EFIMemoryMapTag", "memory_areas"): "C18", ("MemoryMapTag", "memory_areas"): "C05",
+    ("SmbiosTag", "tables"): "C05", ("FramebufferTag", "buffer_type"): "G4/G6", ("MemoryArea", "end_address"): "G6 addr + len",
+    ("RsdpV1Tag", "signature"): "G6 from_utf8(signature)", ("RsdpV1Tag", "oem_id"): "G6 from_utf8(oemid)", ("RsdpV1Tag", "checksum_is_valid"): "G6",
+    ("RsdpV2Tag", "signature"): "G6 from_utf8(signature)", ("RsdpV2Tag", "oem_id"): "G6 from_utf8(oemid)", ("RsdpV2Tag", "checksum_is_valid"): "G6",
+}
+# typed getter of BootInformation -> kind
+MBI_GETTERS = {
+    "apm_tag": "Apm", "basic_memory_info_tag": "BasicMeminfo", "boot_loader_name_tag": "BootLoaderName", "bootdev_tag": "Bootdev",
+    "command_line_tag": "Cmdline", "efi_bs_not_exited_tag": "EfiBs", "efi_sdt32_tag": "Efi32", "efi_sdt64_tag": "Efi64",
+    "efi_ih32_tag": "Efi32Ih", "efi_ih64_tag": "Efi64Ih", "elf_sections_tag": "ElfSections", "load_base_addr_tag": "LoadBaseAddr",
+    "memory_map_tag": "Mmap", "network_tag": "Network", "rsdp_v1_tag": "AcpiV1", "rsdp_v2_tag": "AcpiV2", "smbios_tag": "Smbios",
+    "vbe_info_tag": "Vbe",
+}
+MBI_WRAPPER_GETTERS = {"efi_memory_map_tag": "EfiMmap", "framebuffer_tag": "Framebuffer", "elf_sections": "ElfSections", "module_tags": "Module"}
+
+HEADER_ACCESSORS = {
+    "AddressHeaderTag": {"header_addr": "header_addr", "load_addr": "load_addr", "load_end_addr": "load_end_addr", "bss_end_addr": "bss_end_addr"},
+    "ConsoleHeaderTag": {"console_flags": "console_flags"},
+    "EntryAddressHeaderTag": {"entry_addr": "entry_addr"}, "EntryEfi32HeaderTag": {"entry_addr": "entry_addr"},
+    "EntryEfi64HeaderTag": {"entry_addr": "entry_addr"},
+    "FramebufferHeaderTag": {"width": "width", "height": "height", "depth": "depth"},
+    "RelocatableHeaderTag": {"min_addr": "min_addr", "max_addr": "max_addr", "align": "align", "preference": "preference"},
+    "EndHeaderTag": {}, "ModuleAlignHeaderTag": {}, "EfiBootServiceHeaderTag": {}, "InformationRequestHeaderTag": {},
+}
+HEADER_COMMON_ACCESSORS = {"typ": "hdr.type", "flags": "hdr.flags", "size": "hdr.size"}
+HEADER_GETTERS = {
+    "information_request_tag": "InformationRequest", "address_tag": "Address", "entry_address_tag": "EntryAddress",
+    "entry_address_efi32_tag": "EntryAddressEFI32", "entry_address_efi64_tag": "EntryAddressEFI64", "console_flags_tag": "ConsoleFlags",
+    "framebuffer_tag": "Framebuffer", "module_align_tag": "ModuleAlign", "efi_boot_services_tag": "EfiBS", "relocatable_tag": "Relocatable",
+}
+MB2_HEADER_ACCESSORS = {"header_magic": "magic", "arch": "architecture", "length": "header_length", "checksum": "checksum"}
